@@ -94,6 +94,11 @@ def scenarios(tier):
     sc.append(dict(name='del k1 || set k3', backend=b, prior=P1 + [('set', 'k2', 'old2')], actors=[W(('del', 'k1')), W(('set', 'k3', 'new3'))]))
     sc.append(dict(name='update || items', backend=b, prior=P1, actors=[W(('update', (('k1', 'new1'), ('k3', 'new3')))), R(('items',))]))
     sc.append(dict(name='empty store: set k3 || open cached', backend=b, prior=[], actors=[W(('set', 'k3', 'new3')), O(True)]))
+    # a reader that has finished its operation but stays alive with its handle open (idle) must not keep anybody out;
+    # k1 has been overwritten before (the sqlite table keeps superseded rows)
+    PH = [('set', 'k1', 'x'), ('set', 'k1', 'old1'), ('set', 'k2', 'old2')]
+    for r in [('contains', 'k1'), ('get', 'k1'), ('len',), ('items',)] + ([('keys',), ('load',), ('getd', 'k9')] if tier == 'thorough' else []):
+        sc.append(dict(name='idle after %s || set k3' % (r,), backend=b, prior=PH, actors=[R(r, linger=True), W(('set', 'k3', 'new3'))], bound=1))
     if tier == 'thorough':
         sc.append(dict(name='update k2,k3 || update k4,k5', backend=b, prior=P1,
                        actors=[W(('update', (('k2', 'new2'), ('k3', 'new3')))), W(('update', (('k4', 'new4'), ('k5', 'new5'))))]))
@@ -172,6 +177,30 @@ def check(sc, res):
             if not (failed_writers and all(F == s for s in [F]) and F in states):
                 out.append(('lost-or-corrupted-entry', {'lost': bool(lost), 'extra': bool(extra)},
                             'final contents %r, expected %r (completed writes must survive)' % (F, expected)))
+    # a writer may be refused while another process is in the middle of an operation; it may not be refused by
+    # processes that have all finished theirs (idle handles) before it even started
+    trace = res.get('trace') or []
+    for i, a in writers:
+        r = res['results'][i]
+        if isinstance(r, list) and all(x[0] == 'ret' for x in r):
+            continue
+        mine = [n for n, t in enumerate(trace) if t[0][t[1]] == i]
+        if not mine:
+            continue
+        others_done_before = True
+        for j, b in enumerate(sc['actors']):
+            if j == i:
+                continue
+            idle = [n for n, t in enumerate(trace) if t[0][t[1]] == j and t[2] == 'idle']
+            last = [n for n, t in enumerate(trace) if t[0][t[1]] == j and t[2] != 'exit']
+            end = idle[0] if idle else (last[-1] if last else -1)
+            if not (b.get('linger') and idle) and last and last[-1] > mine[0]:
+                others_done_before = False
+            elif end > mine[0]:
+                others_done_before = False
+        if others_done_before:
+            out.append(('writer-refused-by-idle-process', {'exc': (r[0][1] if isinstance(r, list) and r else '?')},
+                        'writer %d failed with %r although every other process had finished its operations before it started' % (i, r)))
     # what readers / openers saw
     for i, a in enumerate(sc['actors']):
         r = res['results'][i]
